@@ -260,6 +260,13 @@ def run(ctx):
         d = int(rng.integers(2, 7))
         n = [int(x) for x in rng.integers(1, 4, size=d)]
         r = [1] + [int(x) for x in rng.choice([1, 2, 5], size=d - 1)] + [1]
+        if t % 12 == 7:
+            # one step beyond the small scope: long chains, modes up to 30, ranks up to 20
+            d = int(rng.integers(8, 13))
+            n = [int(x) for x in rng.integers(1, 3, size=d)]
+            for pos_ in rng.choice(d, size=2, replace=False):
+                n[int(pos_)] = int(rng.integers(8, 31))           # dense reference stays below ~10^6 entries
+            r = [1] + [int(x) for x in rng.integers(1, 21, size=d - 1)] + [1]
         kind = kinds[t % len(kinds)]
         Y = make_tt(rng, n, r, kind)
         k = int(rng.integers(0, d))
